@@ -12,7 +12,7 @@ open Generated.C
 theorem cscalar_fix_offset_eq_model (m : Mode) (cc len : Int) :
     fix_offset (m.code : Int) cc len = fixOffset m cc len := by
   unfold fix_offset fixOffset
-  cases m <;> simp only [Mode.code] <;> grind
+  cases m <;> simp only [Mode.code, Int.tmod_def] <;> grind
 
 example : fix_offset 3 (-4) 3 = some 0 ∧ fix_offset 2 7 3 = some 1 ∧ fix_offset 1 (-1) 5 = some 4
     ∧ fix_offset 0 9 4 = some 3 ∧ fix_offset 4 (-1) 4 = none ∧ fix_offset 5 2 4 = some 2 := by decide
